@@ -212,6 +212,12 @@ def load_link_parents():
             GOTO_CHILDREN[t[1]] = t[2].split(",") if len(t) > 2 else []
 
 
+# arrays whose dimension the reader checks against the size of the zone they are read under: a link to such an array is
+# readable only from a zone of the same size (the link phase builds both with the same size; the random histories, whose zones
+# have random sizes, make no such links)
+SIZE_BOUND = {("ArbitraryGridMotion_t", A), ("DiscreteData_t", A)}
+
+
 def is_link(p):
     return isinstance(p, str) and p.startswith("@")
 
@@ -792,7 +798,8 @@ class Gen:
     def link_op(self, path, pl, label):
         """a link child of kind `label` under `path`: into the second file, or to an existing entity of that kind under a
         parent with the same label in this file (never to an ancestor, never from inside a target: no chains, no cycles)"""
-        if pl not in LINK_PARENTS or self.ref.inside_target(path) or not [k for k in link_kinds_at(path, pl) if k[0] == label]:
+        if pl not in LINK_PARENTS or self.ref.inside_target(path) or not [k for k in link_kinds_at(path, pl) if k[0] == label] \
+                or (pl, label) in SIZE_BOUND:
             return None
         name = ("L" + self.fresh_name(label))[:32]
         cands = []
